@@ -567,12 +567,12 @@ func (x *Exec) binDecode(t types.Type, dst *Cell, little bool, in []*smt.Term, p
 	case *types.Basic:
 		switch {
 		case u.Kind() == types.Bool:
-			dst.V = c.Not(c.Eq(get(1), c.BVC(8, 0)))
+			x.store(dst, c.Not(c.Eq(get(1), c.BVC(8, 0))))
 		case u.Kind() == types.Float64:
-			dst.V = c.FFromBits(get(8))
+			x.store(dst, c.FFromBits(get(8)))
 		case u.Info()&types.IsInteger != 0:
 			w, _ := x.intWidth(t)
-			dst.V = get(w / 8)
+			x.store(dst, get(w/8))
 		default:
 			panic(x.unsupported("binary decode of %v", t))
 		}
